@@ -3,6 +3,7 @@ package gen
 import (
 	"bytes"
 	"fmt"
+	"strings"
 
 	"verif/harness/internal/core"
 )
@@ -43,6 +44,17 @@ func TileShape(r *core.Rng, target int) ([]byte, string) {
 		if typ == "uuid" && r.Bool() {
 			id := [][]byte{UUIDCanonMeta, UUIDXPacket, UUIDPreview}[r.Intn(3)]
 			unit = rawBox("uuid", append(append([]byte{}, id...), payload()...))
+		}
+		if r.Chance(1, 6) {
+			// a complete CR3 preview box whose PRVW header announces far more than it holds
+			hdr := make([]byte, 16)
+			copy(hdr[4:], be16(1))
+			copy(hdr[6:], be16(r.Pick(160, 1620, 6000)))
+			copy(hdr[8:], be16(r.Pick(120, 1080, 4000)))
+			copy(hdr[10:], be16(1))
+			copy(hdr[12:], be32(r.Pick(1000, 65536, 900<<10, 1<<20, 1<<20+1, 16<<20, 0x7fffffff)))
+			prvw := rawBox("PRVW", append(hdr, r.Bytes(r.Pick(0, 2, 16))...))
+			unit = rawBox("uuid", append(append(append([]byte{}, UUIDPreview...), 0, 0, 0, 0, 0, 0, 0, 1), prvw...))
 		}
 		kids := rep(unit)
 		heif := Ftyp(r.PickStr("avif", "heic"), 0, "mif1", "heic", "avif").Serialise(nil)
@@ -208,6 +220,19 @@ func TileShape(r *core.Rng, target int) ([]byte, string) {
 			"<xmp:Rating>5</xmp:Rating>", "<dc:title><rdf:Alt><rdf:li xml:lang='x'>t</rdf:li></rdf:Alt></dc:title>", "<tiff:Make>C</tiff:Make>", " x='y'", "<a>", "</a>", "<a/>",
 			"<xmpMM:History><rdf:Seq><rdf:li stEvt:action='s'/></rdf:Seq></xmpMM:History>"}
 		u := units[r.Intn(len(units))]
+		if r.Chance(1, 3) {
+			// a supported property with a long value of one repeated token (separators of the typed
+			// value parsers: colons, slashes, dashes, digits, blanks)
+			prop := r.PickStr("xmpMM:DocumentID", "xmpMM:InstanceID", "xmpMM:OriginalDocumentID", "xmp:CreateDate", "exif:FNumber", "exif:ExposureTime", "aux:Lens", "tiff:Make", "xmp:Rating", "dc:format", "exif:DateTimeOriginal", "aux:LensInfo")
+			val := strings.Repeat(r.PickStr("a:", ":", "1/", "-", "0", "9 ", "uuid:", "T", "+", "ab"), r.Pick(50, 300, 600, 1100)/2)
+			if len(val) > 1200 {
+				val = val[:1200]
+			}
+			u = "<" + prop + ">" + val + "</" + prop + ">"
+			if r.Bool() {
+				u = "<rdf:Description " + prop + "='" + val + "'/>"
+			}
+		}
 		head := "<x:xmpmeta xmlns:x='adobe:ns:meta/'><rdf:RDF xmlns:rdf='http://www.w3.org/1999/02/22-rdf-syntax-ns#'><rdf:Description rdf:about='' xmlns:dc='http://purl.org/dc/elements/1.1/' xmlns:xmp='http://ns.adobe.com/xap/1.0/' xmlns:tiff='http://ns.adobe.com/tiff/1.0/' xmlns:xmpMM='http://ns.adobe.com/xap/1.0/mm/' xmlns:stEvt='http://ns.adobe.com/xap/1.0/sType/ResourceEvent#'"
 		if u[0] == '<' {
 			head += ">"
